@@ -1106,10 +1106,13 @@ CHECKS["C13"] = Spec(
 )
 CHECKS["C11"] = Spec(
     prop_file="C11.v",
+    quick_n=120,      # every history ends with a drain phase of ~10 cycles, each followed by byte images of all files: the replay is the expensive part
     weights=dict(put=36, remove=18, flush=12, pgc=14, igc=10, get=4, reopen=2),
     gen_kw=dict(pmax_choices=(1, 60, 100, 300), imax_choices=(1, 40, 100, 300), imm_p=0.0),
+    # time-limited cycles before the drain: a cycle stopped by its limit must not make a later cycle skip work (resume cursor, visited / affected sets)
+    variants=[(0.35, dict(weights=dict(put=36, remove=18, flush=14, pgc=7, pgcl=11, igc=5, igcb=7, get=2)))],
     keep=("res", "img", "tbl"),
-    nontrivial=lambda t, r: _count_ops(t, ("pgc",)) >= 2 and _count_ops(t, ("igc",)) >= 1 and _count_ops(t, ("remove", "put")) >= 5,
+    nontrivial=lambda t, r: _count_ops(t, ("pgc", "pgcl")) >= 2 and _count_ops(t, ("igc", "igcb")) >= 1 and _count_ops(t, ("remove", "put")) >= 5,
     rule=_KEYS_RULE + "small file limits; removals/overwrites then GC cycles; file images and tables compared with the model after each cycle; "
          "every generated history ends with a drain phase (remove everything, flush, 3 primary + 2 index cycles) after which every non-current file must "
          "be empty or unlinked and a further cycle must write nothing",
